@@ -11,10 +11,11 @@ from ..core import Check, Outcome, crash, fail
 from ..onto import model as M
 
 
-def gen_population(draw, max_orgs=4, max_agents=3, max_bosses=2):
+def gen_population(draw, max_orgs=4, max_agents=3, max_bosses=2, allow_fellow=False):
     n_org = draw(st.integers(2, max_orgs))
     n_ag = draw(st.integers(1, max_agents))
-    pop = [{"cls": "Org"} for _ in range(n_org)] + [{"cls": "Agent"} for _ in range(n_ag)]
+    pop = [{"cls": "Org"} for _ in range(n_org)] + [
+        {"cls": draw(st.sampled_from(["Agent", "Agent", "Fellow"])) if allow_fellow else "Agent"} for _ in range(n_ag)]
     for _ in range(draw(st.integers(0, max_bosses))):
         pop.append({"cls": "Boss", "agent": n_org + draw(st.integers(0, n_ag - 1))})
     return pop
@@ -22,13 +23,15 @@ def gen_population(draw, max_orgs=4, max_agents=3, max_bosses=2):
 
 def candidate_facts(pop, employer):
     orgs = [i for i, p in enumerate(pop) if p["cls"] == "Org"]
-    agents = [i for i, p in enumerate(pop) if p["cls"] == "Agent"]
+    agents = [i for i, p in enumerate(pop) if p["cls"] in ("Agent", "Fellow")]
     bosses = [i for i, p in enumerate(pop) if p["cls"] == "Boss"]
     out = []
     for a in agents:
         out.append((a, "works_for", employer[a]))
         for o in orgs:
             out += [(a, "member_of", o), (a, "affiliated_with", o), (o, "members", a)]
+            if pop[a]["cls"] == "Fellow":
+                out.append((a, "connected_to", o))
     for b in bosses:
         out.append((b, "head_of", employer[pop[b]["agent"]]))
     for o in orgs:
@@ -42,7 +45,7 @@ class C15(Check):
     title = "Property-descriptor inference reaches the full closure in any assertion order"
     rule = (
         "Hypothesis draws a population (2-4 orgs, 1-3 agents, 0-2 roles over agents) of the harness ontology "
-        "(3-level sub-property chain with the top levels on the role taker, inverse pair, transitive property, "
+        "(4-level sub-property chain with the top levels on the role taker and the field of the top-most property only in a subclass, inverse pair, transitive property, "
         "transitive inverse pair; single-, list- and set-valued managed fields), a set of 1-8 base facts and a "
         "permutation with a write form per fact (single-valued assignment, first assignment of a container, "
         "append/add). Oracle: a reference fixpoint closure over fact triples; after every step (every prefix is a "
@@ -69,9 +72,9 @@ class C15(Check):
     def strategy(self, tier, exclude):
         @st.composite
         def ir(draw):
-            pop = gen_population(draw)
+            pop = gen_population(draw, allow_fellow=True)
             orgs = [i for i, p in enumerate(pop) if p["cls"] == "Org"]
-            employer = {i: draw(st.sampled_from(orgs)) for i, p in enumerate(pop) if p["cls"] == "Agent"}
+            employer = {i: draw(st.sampled_from(orgs)) for i, p in enumerate(pop) if p["cls"] in ("Agent", "Fellow")}
             cands = candidate_facts(pop, employer)
             n = draw(st.integers(1, 8 if tier == "quick" else 12))
             idxs = draw(st.lists(st.integers(0, len(cands) - 1), min_size=1, max_size=n, unique=True))
